@@ -311,6 +311,16 @@ def run_std(spec):
         if params.get(NetworkGenerator.TOPOLOGY) != 'vp-test': viol.append(f"the experiment recorded topology {params.get(NetworkGenerator.TOPOLOGY)!r}, the generator's marker is 'vp-test'")
         if e.network().order() != 2: viol.append("the experiment's working network was not generated from its parameters")
         e.tearDown()
+        # the same parameter dict goes on to an experiment over another generator (a sweep over topologies): the marker is that generator's
+        class G2(G):
+            def topology(self): return 'vp-other'
+        e2 = StochasticDynamics(Process(), G2())
+        e2.setUp(params)
+        if params.get(NetworkGenerator.TOPOLOGY) != 'vp-other': viol.append(f"a parameter dict that had been through a run over another generator records topology {params.get(NetworkGenerator.TOPOLOGY)!r} for a generator whose marker is 'vp-other'")
+        e2.tearDown()
+        e.setNetworkGenerator(G2()); e.setUp(params)
+        if params.get(NetworkGenerator.TOPOLOGY) != 'vp-other': viol.append("after setNetworkGenerator() the experiment still records the earlier generator's topology marker")
+        e.tearDown()
     return inp, exp, dict(events=1), [('gens', v) for v in viol[:1]]
 
 
